@@ -211,7 +211,7 @@ def part_coverage(chk, tmp):
 PARTS = [part_scripts, part_node, part_hpc, part_coverage]
 
 
-def run(chk):
+def _component_run(chk):
     # Queue.v uses no generated table (depth arithmetic, cancel return code, sys.maxsize are tied by the
     # correspondence); a non-matching name keeps the other properties' translators out of this check
     proofs_ok = core.standard_proof_phase(chk, "C06", gen_needed=("(none: C06 uses no Gen table)",))
@@ -239,7 +239,7 @@ def run(chk):
                         "squeue answers are snapshots, sbatch returns a fresh id (A-HPC)"]
 
 
-def replay(path):
+def _component_replay(path):
     obj = json.load(open(path))
     print(json.dumps(obj, indent=1)[:6000])
     comp = obj.get("component", "")
@@ -266,3 +266,25 @@ def replay(path):
         return 0
     print("replayed on impl:", probs or "no problem reproduced")
     return 1 if probs else 0
+
+
+# ------------------------------------------------------------------------------------------------
+# system level (added by the coordinator): the real code in the virtual cluster, impl traces accepted
+# by System.step, Coq monitors and Python oracles (harness/syscheck.py)
+def run(chk):
+    _component_run(chk)
+    from harness import syscheck
+    core.extra_props_phase(chk, "C06_system")
+    syscheck.system_phase(chk, "C06", {'plain': 7, 'kill': 1, 'timeout': 1, 'sbatchfail': 1}, n_quick=120, n_thorough=2500, also=())
+
+
+def replay(path):
+    import json as _json
+    try:
+        obj = _json.load(open(path))
+    except Exception:  # noqa
+        obj = {}
+    if isinstance(obj, dict) and "scenario" in obj and "schedule" in obj and "plan" in obj:
+        from harness import syscheck
+        return syscheck.replay_case(path)
+    return _component_replay(path)
